@@ -57,7 +57,13 @@ pub fn ref_parse(s: &str) -> Option<RAuth> {
 	let end = rest.find(['/', '?', '#']).unwrap_or(rest.len());
 	let auth = &rest[..end];
 	let hostport = match auth.rfind('@') {
-		Some(i) => &auth[i + 1..],
+		Some(i) => {
+			// userinfo = *( unreserved / sub-delims / ":" )  (pct-encoding is not accepted by the `http` crate)
+			if !auth[..i].bytes().all(|b| b.is_ascii_alphanumeric() || b"-._~!$&'()*+,;=:".contains(&b)) {
+				return None;
+			}
+			&auth[i + 1..]
+		}
 		None => auth,
 	};
 	let (host, after) = if hostport.starts_with('[') {
@@ -338,7 +344,7 @@ impl SubCheck for Filter {
 		"host-filter"
 	}
 	fn cases(&self, tier: Tier) -> u32 {
-		tier.pick(80_000, 2_000_000)
+		tier.pick(1_000_000, 20_000_000)
 	}
 	fn strategy(&self, _tier: Tier) -> BoxedStrategy<C14Case> {
 		proptest::collection::vec(arb_entry(), 0..5)
@@ -412,6 +418,13 @@ impl SubCheck for Filter {
 			})
 		});
 		let parsed: Vec<&RAuth> = [host_auth.as_ref().and_then(|x| x.as_ref()), uri_auth.as_ref().and_then(|x| x.as_ref())].into_iter().flatten().collect();
+		// brackets inside the userinfo part: the `http` crate accepts some of these texts and rejects others; the
+		// reference grammar does not try to mirror that, such requests are counted and not judged
+		let exotic = |t: &str| t.rfind('@').is_some_and(|i| t[..i].contains(['[', ']']));
+		if host_strs.iter().any(|h| exotic(h)) || uri_str.as_deref().is_some_and(exotic) {
+			obs.class("outside-reference-grammar");
+			return;
+		}
 		// ---- soundness
 		obs.check(status == 200 || status == 400 || status == 403, "c14/unexpected-status", desc);
 		obs.check(was_called == (status == 200), "c14/status-and-inner-call-disagree", desc);
